@@ -53,7 +53,12 @@ def main():
                 files = [Path(p) for p in o['files']]
                 out = Path(o['out'])
                 dbg = Path(o['debug']) if o.get('debug') else None
-                if o.get('lzma_preset') is None:
+                if o.get('one_call'):
+                    # the single-call API: assembles into a temporary file and runs it
+                    flipjump.assemble_and_run(files, memory_width=o['w'], use_stl=o['use_stl'], fjm_version=FJMVersion(o['version']),
+                                              warning_as_errors=o['werror'], print_time=not o['silent'], print_termination=not o['silent'])
+                    o['run'] = False
+                elif o.get('lzma_preset') is None:
                     flipjump.assemble(files, out, memory_width=o['w'], use_stl=o['use_stl'], fjm_version=FJMVersion(o['version']),
                                       warning_as_errors=o['werror'], debugging_file_path=dbg, print_time=not o['silent'])
                 else:
